@@ -410,7 +410,11 @@ def install_core(mod):
     mod.math = MathShim()
     mod.b64encode = b64encode
     mod.b64decode = b64decode
+    from .symjson import JsonShim
+
+    mod.json = JsonShim()
     return [
+        "betterproto.json -> dumps checks serialisability like json and returns an opaque text carrying the value tree it parses back to (keys stringified, one NaN); loads returns that tree",
         "betterproto.BytesIO -> list-backed stream model",
         "betterproto.struct -> pack/unpack model for <I <i <Q <q <d <f",
         "betterproto.int/float/str/bytes -> constructor shims (identity on proxies, int.from_bytes, str(bytes,'utf-8'))",
